@@ -27,6 +27,9 @@ INTS = "isize|usize|i8|i16|i32|i64|i128|u8|u16|u32|u64|u128"
 GENERIC_ITEMS = [  # compile-valid generic declarations per derive family (derive list, declaration)
     ("Display", '#[derive(derive_more::Display)] #[display("{a} {b:?}")] pub struct G<\'a, T: Clone, U, const N: usize> where U: Copy { pub a: &\'a T, pub b: [U; N] }'),
     ("Display", '#[derive(derive_more::Display)] pub enum G<T, U = i32> { A(T), #[display("{_0}/{_1}")] B(U, T), C }'),
+    ("Display", '#[derive(derive_more::Display)] #[display("<{_variant}>")] pub enum G<T, U> { A(T), #[display("{_0}!")] B(U), C }'),
+    ("Display", '#[derive(derive_more::LowerHex)] #[lower_hex("{_variant}/{_0:x}")] pub enum G<T, U> { A(T), B(U) }'),
+    ("Display", '#[derive(derive_more::Display)] #[display("dflt {_0}")] pub enum G<T, U> { A(T), #[display("{_0}!")] B(U) }'),
     ("Debug", "#[derive(derive_more::Debug)] pub struct G<'a, T: ?Sized, const N: usize> { pub a: &'a T, pub b: [u8; N], #[debug(skip)] pub c: () }"),
     ("Debug", "#[derive(derive_more::Debug)] pub enum G<'a, T, U> where T: Clone { A(&'a T), B { x: U }, C }"),
     ("Error", "#[derive(derive_more::Debug, derive_more::Display, derive_more::Error)] #[display(\"e\")] pub struct G<E, const N: usize> { pub source: E, pub pad: [u8; N] }"),
